@@ -331,6 +331,8 @@ def run(facts, tier):
     r13_3c_everywhere(facts, res)
     r13_5(facts, res)
     r13_7(facts, res)
+    import registry
+    registry.rule(facts, res, "R13-10")     # an attached node is the registered one (its children find it)
     from props import c15
     c15.r15_3(facts, res, "R13-9")     # invalid-character errors of the factories
     import borrowck
